@@ -42,6 +42,10 @@ def _op(r, k, kind):
         return ref.rand_unitary(r, d)
     if kind == 2:
         return np.diag(np.exp(1j * r.uniform(0, 2 * np.pi, size=d)))
+    if kind == 4:  # a gate within 1e-6 of the identity (a tiny rotation angle, a weak non-unitary damping): still a different operator
+        if r.integers(0, 2):
+            return np.diag(np.exp(1j * 1e-6 * r.uniform(-1, 1, size=d)))
+        return np.eye(d, dtype=np.complex128) + 3e-6 * np.diag(r.uniform(0, 1, size=d))
     p = r.permutation(d)
     m = np.zeros((d, d), dtype=np.complex128)
     m[p, np.arange(d)] = 1
@@ -88,7 +92,7 @@ def run_index(ctx, case):
     reps = 3 if ctx.tier == 'quick' else 12
     for rep in range(reps):
         r = ref.rng(case['prng'] * 31 + rep)
-        okind, skind = rep % 4 if ctx.tier == 'quick' else int(r.integers(0, 4)), int(r.integers(0, 6))  # 0 Haar, 1 basis, 2 real float64, 3-5 basis state with complex/float/int dtype
+        okind, skind = (rep + case['prng']) % 5 if ctx.tier == 'quick' else int(r.integers(0, 5)), int(r.integers(0, 6))  # 0 Haar, 1 basis, 2 real float64, 3-5 basis state with complex/float/int dtype
         ctx.label('state dtype=' + ['complex', 'complex', 'float', 'complex', 'float', 'int'][skind])
         if rep == 0:
             okind = case['prng'] % 4
@@ -148,7 +152,7 @@ def run_dm(ctx, case):
     ctx.note(klass='dm', desc=[n, list(targets)], nontrivial=not _contig(targets), labels=[f'n={n}', f'k={len(targets)}'])
     for rep in range(3):
         r = ref.rng(case['prng'] * 17 + rep)
-        op = _op(r, len(targets), (case['prng'] + rep) % 4)
+        op = _op(r, len(targets), (case['prng'] + rep) % 5)
         rho = ref.rand_dm(r, 2 ** n, int(r.integers(1, 2 ** n + 1))) if rep != 1 else ref.rand_hermitian(r, 2 ** n)
         dk = (case['prng'] // 5 + rep) % 5  # 0,1: complex128 as drawn; 2: real symmetric float64; 3: real diagonal float64; 4: integer basis projector
         if dk == 2:
@@ -174,6 +178,8 @@ def run_dm(ctx, case):
         rho_in, op_in = ref.with_layout(rho, lay_r), ref.with_layout(op, lay_o)
         got = nq.sim.dm.apply_gate(rho_in, op_in, idx)
         ctx.close(got, M @ rho @ M.conj().T, 1e-10, 'dm.apply_gate = U rho U^dagger', scale)
+        if (case['prng'] + rep) % 5 == 4:
+            ctx.label('near-identity gate')
         e = nq.sim.dm.operator_expectation(rho_in, op_in, idx)
         ctx.close(e, np.trace(rho @ M), 1e-10, 'operator_expectation = Tr(rho O)', scale)
         ctx.close(rho_in, rho, 0, 'density matrix not modified')
@@ -311,6 +317,8 @@ def strat_op(draw, n, allow_reuse_of=0, differentiable_only=False, depth=0):
         k = draw(st.integers(1, min(2, n)))
         return dict(op='custom_c', q=list(perm[:k]), prng=draw(st.integers(0, 2 ** 31)))
     if kind == 'placeholder':
+        if draw(st.integers(0, 3)) == 0:
+            return dict(op='placeholder3', q=[perm[0]], key=draw(st.sampled_from(['w0', 'w1'])), args=[draw(ang), draw(ang), draw(ang)])
         name = draw(st.sampled_from(['rx', 'ry', 'rz']))
         return dict(op='placeholder', name=name, q=[perm[0]], key=draw(st.sampled_from(['', 'a', 'b'])), slot=draw(st.integers(0, 2)), args=[draw(ang)])
     if kind == 'reuse':
@@ -501,6 +509,14 @@ def build(program, requires_grad=False):
             Pvals[key][slot] = op['args'][0]  # last writer wins: all gates bound to this slot share the value
             e = ('placeholder', op['name'], key, slot, tuple(op['q']))
             sig.add('placeholder')
+        elif name == 'placeholder3':
+            # a placeholder that stands for a WHOLE parameter array (u3 takes three angles): circ.u3(q, circ.P['w0'])
+            key = op['key']
+            g = c.u3(op['q'][0], circ.P[key])
+            Pvals[key] = list(op['args'])  # last writer wins
+            e = ('placeholder', 'u3', key, None, tuple(op['q']))
+            sig.add('placeholder')
+            sig.add('whole-array placeholder')
         else:
             raise ValueError(name)
         return g, e
@@ -549,7 +565,10 @@ def build(program, requires_grad=False):
     for e in reflist:
         if isinstance(e[0], str):
             _, name, key, slot, q = e
-            resolved.append((PARAM1[name][0](Pvals[key][slot]), q, ()))
+            if slot is None:
+                resolved.append((PARAM1[name][0](*Pvals[key]), q, ()))
+            else:
+                resolved.append((PARAM1[name][0](Pvals[key][slot]), q, ()))
         else:
             resolved.append(e)
     n_used = 1 + max([max(t + c) for (m, t, c), raw in zip(resolved, reflist) if True])
@@ -571,10 +590,11 @@ def run_program(ctx, case):
              nontrivial=bool(sig & {'ctrl-param', 'reuse', 'custom-unitary', 'custom-forward', 'placeholder', 'multi-ctrl', 'extend'}) or case['shift'] > 0,
              labels=sorted(sig) + (['shift'] if case['shift'] else []))
     ph_ids = {id(g) for g, _ in circ.gate_index_list if isinstance(getattr(g, 'args', None), nq.sim._internal._ParameterHolder)}  # placeholder gates, before any setP
+    Parr = {k: np.array(v, dtype=np.float64) for k, v in Pvals.items()}  # the caller's parameter arrays: updated IN PLACE before the second setP below
     if Pvals:
-        kw = {k: v for k, v in Pvals.items() if k != ''}
-        if '' in Pvals:
-            circ.setP(Pvals[''], **kw)
+        kw = {k: v for k, v in Parr.items() if k != ''}
+        if '' in Parr:
+            circ.setP(Parr[''], **kw)
         else:
             circ.setP(**kw)
     flat = _flatten(case['ops'])
@@ -614,9 +634,11 @@ def run_program(ctx, case):
         U2 = ref_unitary(resolved2, n)
         if Pvals2:
             # placeholders: a SECOND setP with new values must refresh every placeholder gate (the first call was made above)
-            kw2 = {k: v for k, v in Pvals2.items() if k != ''}
-            if '' in Pvals2:
-                circ.setP(Pvals2[''], **kw2)
+            for k_ in Parr:
+                Parr[k_][...] = np.array(Pvals2[k_], dtype=np.float64)  # same array objects, new values
+            kw2 = {k: v for k, v in Parr.items() if k != ''}
+            if '' in Parr:
+                circ.setP(Parr[''], **kw2)
             else:
                 circ.setP(**kw2)
             ctx.label('setP twice')
@@ -654,7 +676,7 @@ def _resolved_kinds(case, resolved):
             kinds.extend(ks)
         elif o['op'] == 'reuse':
             src = tops[o['src']]
-            k = 'H' if src in ('sub', 'placeholder', 'custom_c') else src
+            k = 'H' if src in ('sub', 'placeholder', 'placeholder3', 'custom_c') else src
             tops.append(k)
             kinds.append(k)
         else:
